@@ -19,11 +19,21 @@ pub struct ParsedWorld {
     pub modules: Vec<(String, ItemPath, grammar::Module)>,
 }
 
+/// pyxis's parser, called from harness code (generators, oracles): a panic in it must not take
+/// the harness down — the build of the same text will hit it too and is where it is reported.
+pub fn safe_parse(text: &str) -> Result<grammar::Module, String> {
+    match std::panic::catch_unwind(|| pyxis::parser::parse_str(text)) {
+        Ok(Ok(m)) => Ok(m),
+        Ok(Err(e)) => Err(e.to_string()),
+        Err(_) => Err("the parser panicked".to_string()),
+    }
+}
+
 pub fn parse_world(world: &World) -> Result<ParsedWorld, String> {
     let mut modules = vec![];
     for (rel, blob) in world.module_files() {
         let text = std::str::from_utf8(&blob.0).map_err(|e| format!("{rel}: {e}"))?;
-        let m = pyxis::parser::parse_str(text).map_err(|e| format!("{rel}: {e}"))?;
+        let m = safe_parse(text).map_err(|e| format!("{rel}: {e}"))?;
         modules.push((
             rel.to_string(),
             ItemPath::from_path(std::path::Path::new(rel)),
